@@ -864,7 +864,7 @@ Section Activate.
     induction l as [|i l IH]; intros vals Hlen Hin; [reflexivity|].
     cbn [activate_loop takeWhile]. unfold elig_of.
     assert (Hi : i < N.of_nat (length flats)) by (apply Hin; left; reflexivity).
-    unfold nthN. destruct (nth_error flats (N.to_nat i)) as [fl|] eqn:Hfl.
+    rewrite !nthN_nth_error. destruct (nth_error flats (N.to_nat i)) as [fl|] eqn:Hfl.
     2:{ apply nth_error_None in Hfl. lia. }
     destruct (N.ltb_spec fin (fl_activation_eligibility_epoch fl)) as [Hlt|Hge].
     - destruct (N.leb_spec (fl_activation_eligibility_epoch fl) fin); [lia|]. reflexivity.
